@@ -1,4 +1,5 @@
 """C02 — every program the front end accepts is compiled completely."""
+from ..evalcorr import files_of as evalcorr_files
 from .. import corr, leanproj, pipeline, optable
 from ..common import Rng, seed
 
@@ -96,6 +97,68 @@ def check(res, tier):
                                   "model of the lowering table and code generator disagree (implementation compiles: %s, model: %s)" % (impl_ok, mans[k]),
                                   {"cell": [c[0], list(c[1])], "model": mans[k], "correspondence": "kddp compile outcome vs DDP.Lowering.lowerTy/toIr"},
                                   has_input=False)
+    # ---- phase 3: operands that are not simple values. Every operator cell of the core language again, each operand in turn
+    # replaced by an expression of the same type that compiles to several basic blocks (list indexing with its bounds check,
+    # a conditional expression, a short-circuit connective, a cast out of a Variable), and random programs of the evaluator
+    # correspondence: whatever the front end accepts, the code generator has to compile
+    from .. import opmatrix, gen
+    from .C01 import random_programs
+    composite = {
+        "Z": ["((eine Liste, die aus %s, 6 besteht) an der Stelle 1)", "(%s, falls w_wahr, ansonsten 6)", "((%s als Variable) als Zahl)"],
+        "K": ["((eine Liste, die aus %s, 0,5 besteht) an der Stelle 1)", "(%s, falls w_falsch, ansonsten 0,5)"],
+        "B": ["((eine Liste, die aus %s besteht) an der Stelle 1)", "(%s, falls w_wahr, ansonsten (1 als Byte))"],
+        "W": ["(%s und w_wahr)", "(%s oder w_falsch)", "((eine Liste, die aus %s besteht) an der Stelle 1)", "(%s, falls w_wahr, ansonsten falsch)"],
+        "T": ["(%s, falls w_wahr, ansonsten \"b\")", "((eine Liste, die aus %s, \"z\" besteht) an der Stelle 1)", "((%s als Variable) als Text)"],
+        "C": ["(%s, falls w_wahr, ansonsten 'b')", "((eine Liste, die aus %s besteht) an der Stelle 1)"],
+    }
+    decl_of = {"Z": "Die Zahl", "K": "Die Kommazahl", "B": "Der Byte", "W": "Der Wahrheitswert", "T": "Der Text", "C": "Der Buchstabe"}
+    stmts = []
+    for label, ts, build, rt in opmatrix.cells():
+        if label.startswith("init:") or not all(isinstance(t, str) and t in composite for t in ts):
+            continue
+        ops = [opmatrix.lit(t, opmatrix.pool(t)[1 % len(opmatrix.pool(t))]) for t in ts]
+        plain = [gen.pp_expr(o, False, gen.P_PRIMARY) for o in ops]
+        for pos, t in enumerate(ts):
+            forms = composite[t]
+            for fi, form in enumerate(forms):
+                if tier == "quick" and (len(stmts) + fi) % 3:
+                    continue
+                marks = ["@@%d@@" % i for i in range(len(ts))]
+                try:
+                    shape = gen.pp_expr(build([("var", m) for m in marks]), False)
+                except (ValueError, KeyError, TypeError):
+                    continue
+                e = shape
+                for i, m in enumerate(marks):
+                    e = e.replace(m, (form % plain[i]) if i == pos else plain[i])
+                if isinstance(rt, str) and rt in decl_of:
+                    stmts.append((label, ts, pos, "%s r_%d ist %s.\n" % (decl_of[rt], len(stmts), ("wahr, wenn " + e) if rt == "W" and False else e)))
+    HEADV = 'Binde "Duden/Ausgabe" ein.\nDer Wahrheitswert w_wahr ist wahr.\nDer Wahrheitswert w_falsch ist falsch.\n'
+    per = 12
+    cjobs, cmeta = [], []
+    for i in range(0, len(stmts), per):
+        grp = stmts[i:i + per]
+        cjobs.append(({"main.ddp": HEADV + "".join(x[3] for x in grp)}, pipeline.Config(opt=0), {"compile_only": True}))
+        cmeta.append(grp)
+    rprogs = random_programs(seed() + 2002, 60 if tier == "quick" else 600)
+    for pgm in rprogs:
+        cjobs.append((evalcorr_files(pgm), pipeline.Config(opt=0), {"compile_only": True}))
+        cmeta.append(None)
+    couts = pipeline.farm(ddp, cjobs)
+    res.evaluations += len(cjobs)
+    ncomp = 0
+    st_front = 0
+    for (files, _, _), grp, r in zip(cjobs, cmeta, couts):
+        if r.cls == "compile-rejected" and "Fehlerhafter Quellcode" in r.compile_out:
+            st_front += 1       # the front end refused (an ill-typed composite form or a generated program it does not accept)
+            continue
+        if r.cls in ("compile-internal-error", "compile-rejected"):
+            ncomp += 1
+            if ncomp <= 4:
+                res.violation("composite:%s" % (hash(files["main.ddp"]) % 10 ** 9),
+                              "accepted by the front end but not compiled (%s)%s" % (r.cls, "" if grp is None else ": operator cells " + ", ".join(sorted({g[0] for g in grp}))),
+                              {"program": files["main.ddp"], "files": files, "implementation": r.as_dict(), "note": "replay: kddp kompiliere main.ddp -O 0"})
+    res.extra.update({"composite_operand_statements": len(stmts), "random_programs_compiled": len(rprogs), "refused_by_the_front_end": st_front})
     # ---- programs combining features (routed here from the other generators): a small fixed set
     combos = {
         "nested-list": 'Wir nennen eine Zahlen Liste auch eine Reihung.\nDie Reihung a ist eine Liste, die aus 1, 2 besteht.\n'
@@ -114,7 +177,9 @@ def check(res, tier):
     res.rule = ("every unary, binary, ternary operator and every cast applied to every tuple of %d operand classes (primitives, lists of "
                 "each, Kombination and its list, Variable, type alias, three type definitions): parsed in-process (verdict + result type); "
                 "every accepted cell compiled by the real code generator + LLVM in the value contexts initialiser / Variable / assignment / "
-                "argument / return / list element / condition (quick: three contexts + sampled rest). distinct by cell") % len(optable.ORDER)
+                "argument / return / list element / condition (quick: three contexts + sampled rest); every core operator cell again with each "
+                "operand in turn as a multi-block expression (list indexing, conditional expression, short-circuit connective, cast out of a "
+                "Variable) and random programs: accepted by the front end implies compiled. distinct by cell") % len(optable.ORDER)
     for k in (3, len(cells) // 3, len(cells) - 5):
         res.sample({"cell": [cells[k][0], list(cells[k][1])], "expression": cells[k][2], "accepted": not outs[k]["faulty"], "model": mans.get(k)})
     res.assumptions += ["casts and the value contexts are decided by the exhaustive cell enumeration only (not modelled in Lean)",
